@@ -128,6 +128,10 @@ func checkEvalTotal(c evalCase) (msg string, class string) {
 	if out.Panic == nil {
 		// the runner is the caller's to keep: the same evaluation once more on the runner that has just
 		// served (and possibly failed) the first one must again come back with a value or an error
+		// (by then it also holds locals of every kind, composite ones included)
+		r.SetThisValue("$heldList", []interface{}{1, "two", map[string]interface{}{"k": nil}})
+		r.SetThisValue("$heldMap", map[string]interface{}{"a": []interface{}{}})
+		r.SetThisValue("$heldFn", data["fn0"])
 		again := obs.Eval(r, ctx, p.Src.Expression)
 		if again.Panic != nil {
 			return fmt.Sprintf("Resolve(%q) on the runner that had evaluated the same formula before (outcome %s) panicked: %v", f, out, again.Panic), "panic"
